@@ -4,9 +4,10 @@
 //! Program text (spec key `prog`, main thread): `E<h>` emit on handle h, `C<h>` clone handle h,
 //! `D<h>` drop handle h, `W` wait until everything accepted so far was handed over, `Q` wait for a
 //! quiescent moment, `R` read the counters, `O` open the gate a blocked wrapped sink waits on,
-//! `S` spawn the producers and the sampler, `J` join them. Handles still alive when the program
+//! `F<h>` flush through handle h, `S` spawn the producers and the sampler, `J` join them. Handles still alive when the program
 //! ends are dropped in creation order. Producers (spec key `prod`, comma separated): `E` emit on
-//! their own clone, `D` drop it. Script (spec key `script`): outcome of the wrapped sink per
+//! their own clone, `F` flush through it, `D` drop it. `sy=1` puts a scheduling point inside the wrapped
+//! sink's emit (so that two concurrent invocations can be observed). Script (spec key `script`): outcome of the wrapped sink per
 //! call in order: o=Ok, e=Err(Other), i=Err(Interrupted), w=Err(WouldBlock), p=panic,
 //! b=block on the gate then Ok; calls beyond the script succeed.
 use crate::common::{hash_of, Report};
@@ -32,6 +33,15 @@ enum Log {
     /// error handler invoked: (payload id, thread)
     Handler(Option<usize>, usize),
     SinkDropped(usize),
+    /// wrapped sink's flush invoked on this thread
+    SinkFlush(usize),
+    FlushEnd {
+        thread: usize,
+        ok: bool,
+        injected: bool,
+        waited: bool,
+        panicked: bool,
+    },
     /// an operation of a harness thread began / ended
     Begin(usize, String),
     EmitEnd {
@@ -75,6 +85,8 @@ struct Shared {
     calls: AtomicUsize,
     /// the wrapped sink's flush fails as well (a dead connection)
     flush_fails: bool,
+    /// a scheduling point inside the wrapped sink's emit
+    sink_yield: bool,
     /// which error an 'e' outcome produces: None = ErrorKind::Other with an identifiable payload,
     /// Some(n) with n < 1000 = the n-th ErrorKind of the table, n >= 1000 = raw OS error n - 1000
     err_code: Option<usize>,
@@ -145,6 +157,9 @@ impl MetricSink for ScriptedSink {
         let tid = rt::me().unwrap_or(usize::MAX);
         self.sh.push(Log::SinkCall(idx, metric.to_string(), tid));
         self.sh.handed.fetch_add(1, Ordering::SeqCst);
+        if self.sh.sink_yield {
+            rt::yield_point("in-sink");
+        }
         match self.sh.script.get(idx).copied().unwrap_or(b'o') {
             b'e' | b'i' | b'w' => {
                 let kind = match self.sh.script[idx] {
@@ -191,6 +206,7 @@ impl MetricSink for ScriptedSink {
 
 impl ScriptedSink {
     fn flush_impl(&self) -> io::Result<()> {
+        self.sh.push(Log::SinkFlush(rt::me().unwrap_or(usize::MAX)));
         if self.sh.flush_fails {
             Err(io::Error::new(io::ErrorKind::BrokenPipe, Injected(9000)))
         } else {
@@ -222,6 +238,7 @@ pub struct QueueScn {
     pub big: usize,
     /// reference-count operations of the sink's `Arc`s are scheduling points
     pub arc: bool,
+    pub sink_yield: bool,
     pub text: String,
 }
 
@@ -242,6 +259,7 @@ pub fn scenario(spec: &crate::Spec) -> QueueScn {
         err_code: spec.opt_usize("kind").or(spec.opt_usize("errno").map(|n| 1000 + n)),
         big: spec.usize("big", 0),
         arc: spec.usize("arc", 0) == 1,
+        sink_yield: spec.usize("sy", 0) == 1,
         text: spec.raw.clone(),
     }
 }
@@ -293,6 +311,29 @@ fn drop_handle(sh: &Shared, q: QueuingMetricSink, thread: usize) {
     });
 }
 
+fn flush_on(sh: &Shared, q: &QueuingMetricSink, thread: usize) {
+    sh.push(Log::Begin(thread, "flush".into()));
+    let b0 = rt::my_blocked_count();
+    let r = panic::catch_unwind(AssertUnwindSafe(|| q.flush()));
+    let waited = rt::my_blocked_count() != b0;
+    match r {
+        Ok(res) => sh.push(Log::FlushEnd {
+            thread,
+            ok: res.is_ok(),
+            injected: res.as_ref().err().map(|e| crate::writer::injected_id(e).is_some()).unwrap_or(false),
+            waited,
+            panicked: false,
+        }),
+        Err(_) => sh.push(Log::FlushEnd {
+            thread,
+            ok: false,
+            injected: false,
+            waited,
+            panicked: true,
+        }),
+    }
+}
+
 fn read_counters(sh: &Shared, q: &QueuingMetricSink, thread: usize, quiescent: bool) {
     let r = panic::catch_unwind(AssertUnwindSafe(|| (q.panics(), q.submitted(), q.drained(), q.queued())));
     if let Ok((panics, submitted, drained, queued)) = r {
@@ -330,6 +371,7 @@ impl Scenario for QueueScn {
             script: self.script.as_bytes().to_vec(),
             calls: AtomicUsize::new(0),
             flush_fails: self.flush_fails,
+            sink_yield: self.sink_yield,
             err_code: self.err_code,
         });
         let scn = self.clone();
@@ -401,6 +443,13 @@ impl Scenario for QueueScn {
                         }
                         after_q = false;
                     }
+                    b'F' => {
+                        let h = arg.unwrap_or(0);
+                        if let Some(Some(q)) = handles.get(h) {
+                            flush_on(&sh, q, 0);
+                        }
+                        after_q = false;
+                    }
                     b'W' => {
                         let s = sh.clone();
                         rt::wait_until("all-handed-over", move || s.handed.load(Ordering::SeqCst) >= s.accepted.load(Ordering::SeqCst));
@@ -435,6 +484,11 @@ impl Scenario for QueueScn {
                                         b'D' => {
                                             if let Some(q) = mine.take() {
                                                 drop_handle(&sh, q, pi + 1);
+                                            }
+                                        }
+                                        b'F' => {
+                                            if let Some(q) = &mine {
+                                                flush_on(&sh, q, pi + 1);
                                             }
                                         }
                                         _ => {}
@@ -556,7 +610,42 @@ fn judge(scn: &QueueScn, end: &EndState, sh: &Shared) -> Verdict {
                 }
             }
             Log::SinkDropped(_) => dropped += 1,
+            Log::FlushEnd { ok, injected, waited, panicked, .. } => {
+                flags.push("flushed-through-the-queuing-sink");
+                if *panicked {
+                    br(&mut out, &["C06", "C20"], "flush-panicked", "flush on the queuing sink panicked".into());
+                }
+                if *waited {
+                    br(&mut out, &["C10"], "flush-waited", "flush on the queuing sink blocked on an operation that was not enabled".into());
+                }
+                if *ok && scn.flush_fails {
+                    br(&mut out, &["C06", "C07"], "flush-error-swallowed", "the wrapped sink's flush failed but flush on the queuing sink returned Ok".into());
+                }
+                if !*ok && !*panicked && !(scn.flush_fails && *injected) {
+                    br(&mut out, &["C06"], "flush-failed", "flush on the queuing sink returned an error that is not the wrapped sink's".into());
+                }
+            }
             _ => {}
+        }
+    }
+    // handed over one at a time: no invocation of the wrapped sink begins while another is running
+    {
+        let mut running: Option<(usize, String, usize)> = None;
+        for l in &log {
+            match l {
+                Log::SinkCall(idx, m, t) => {
+                    if let Some((_, m0, t0)) = &running {
+                        br(&mut out, &["C08"], "sink-invoked-concurrently", format!("the wrapped sink was handed {} on thread {} while it was still processing {} on thread {}", m, t, m0, t0));
+                    }
+                    running = Some((*idx, m.clone(), *t));
+                }
+                Log::SinkOk(i) | Log::SinkPanic(i) | Log::SinkErr(i, _) => {
+                    if running.as_ref().map(|r| r.0 == *i).unwrap_or(false) {
+                        running = None;
+                    }
+                }
+                _ => {}
+            }
         }
     }
     for (t, p) in &end.panics {
@@ -853,6 +942,7 @@ fn judge(scn: &QueueScn, end: &EndState, sh: &Shared) -> Verdict {
             Log::Counters { panics, submitted, drained, queued, .. } => Some(format!("R{}/{}/{}/{}", panics, submitted, drained, queued)),
             Log::Sample { queued, submitted } => Some(format!("s{}/{}", queued, submitted)),
             Log::Handler(id, _) => Some(format!("H{:?}", id)),
+            Log::FlushEnd { ok, .. } => Some(format!("F{}", ok)),
             _ => None,
         })
         .collect();
